@@ -1,5 +1,6 @@
 import Uhppote.Model.Driver
 import Uhppote.Gen.Driver
+import Uhppote.Gen.Source
 /-! # C09 — every call ends within its timeout and releases its socket and goroutines (partial)
 
 `Model.Driver.exchange` is one request method of uhppote/UT0311.go as a timed function of what
@@ -122,5 +123,10 @@ theorem C09_resources_all_methods (calls : List Bool) (r : Res) :
 example : exchange Gen.Driver.BroadcastTo .broadcastTo 200 150 .none [⟨10, false, false⟩, ⟨30, true, true⟩, ⟨40, true, true⟩] = (true, 30) := by decide
 example : exchange Gen.Driver.SendTCP .tcp 200 0 .stall [] = (false, 200) := by decide
 example : afterCall { Gen.Driver.Broadcast with closeDeferredAfterOpen := false } true ⟨3, 5⟩ = ⟨4, 6⟩ := by decide
+
+/-- "any goroutine it started ends promptly": the goroutines there are to end (regenerated inventory of `go`
+    statements) - the request paths start none, discovery one collector, the listener a reader, a shutdown watcher and
+    a dispatcher; the `leak` stream counts goroutines around calls of each of them -/
+theorem C09_goroutines : Gen.Source.goStatements = ["uhppote/UT0311.go:ut0311.Broadcast: 1", "uhppote/UT0311.go:ut0311.Listen: 2", "uhppote/listen.go:uhppote.Listen: 1"] := by decide
 
 end Uhppote.Props.C09
